@@ -7,7 +7,7 @@
 EXTENDS MxjMapGen, MxjPath, Json
 CONSTANTS SearchKeys, CondKeys, MaxConds, PathNames, MaxPath, DoEmit
 
-CondVals == {[kind |-> "s", v |-> "x"], [kind |-> "star", v |-> "*"], [kind |-> "b", v |-> "true"], [kind |-> "f", v |-> "1"]}
+CondVals == {[kind |-> "s", v |-> "x"], [kind |-> "star", v |-> "*"], [kind |-> "b", v |-> "true"], [kind |-> "f", v |-> "0.1"]}       \* (0.1: not exact in single precision)
 AllConds == {[k |-> k, neg |-> n, kind |-> cv.kind, v |-> cv.v] : k \in CondKeys, n \in BOOLEAN, cv \in CondVals}
 CondSets == {{}} \cup (IF MaxConds >= 1 THEN {{c} : c \in AllConds} ELSE {})
             \cup (IF MaxConds >= 2 THEN UNION {{{c, d} : d \in {e \in AllConds : <<e.neg, e.k>> # <<c.neg, c.k>>}} : c \in AllConds} ELSE {})
@@ -31,8 +31,9 @@ Emit == DoEmit => PrintT(ToJson([f |-> "vfk", m |-> m,
            pf |-> SetToSeq({PCase(key) : key \in SearchKeys}),
            vp |-> SetToSeq({VCase(p, cs) : p \in Paths, cs \in SmallCondSets})]))
 Spec == GenSpec
-cScalars == {VS("x"), VS("y"), VB("true"), VF("1")}
-cScalarsSmall == {VS("x"), VB("true"), VF("1")}
+cScalars == {VS("x"), VS("y"), VB("true"), VF("0.1")}
+cScalarsSmall == {VS("x"), VB("true"), VF("0.1")}
+cScalarsNil == {VS("x"), VNil}        \* a member that is present with a null value is PRESENT (wildcard and negated conditions)
 cConts == {EmptyMap, EmptyList}
 cScalars1 == {VS("x")}
 =============================================================================
